@@ -571,7 +571,7 @@ func (g *gstate) setup(ngroups int) {
 		gn := common.Pick(r, "g1", "g1", "g2", "other", "g1x", "g1/sub", "g") // (incl. names that extend or are extended by a group's name)
 		user := common.Pick(r, "%", "%", "tim", "alice")
 		perms := common.Pick(r, "present+message", "message", "op+present+message", "-", "present+message+token", "[]",
-			"present+present", "op+record+present+op+message")
+			"present+present", "op+present+op+message") // (no `record` from a token: recording in an autokick group is outside the model, see autoLockKick)
 		exp := common.Pick(r, "F", "F", "F", "P", "-")
 		nbf := common.Pick(r, "-", "-", "-", "F", "P")
 		g.do(fmt.Sprintf("tok %s %s %s %s %s %s", name, gn, user, perms, exp, nbf))
